@@ -211,6 +211,8 @@ func runC08(r *Report, tier string) {
 	r.rule("R09.1", "(shared with C09) every structure decoder stores the same-named wire slots unchanged.")
 	checkDecoderSlots(r, "R09.1")
 	checkUnprotectedEncoderTagFree(r, "R08.6")
+	r.rule("R08.7", "closure under the decoder, value level (D7): on every success path of the two bucket encoders the encoded header map has passed a full generic decode (DecMode.Unmarshal into map[any]any / any) under a package decode mode whose options, TagsMd apart, equal those of the modes the bucket's decoder reaches - header values are arbitrary Go values, so this is the only way integers beyond int64, invalid UTF-8 text and the like cannot be emitted and then refused by the library's own decoder.")
+	checkBucketEncoderValueClosure(r, "R08.7")
 	// what the bucket marshalers hand to the wire struct is raw bytes only
 	// when there are any: an empty non-nil raw slice is not "the raw bytes"
 	// (it would be emitted as null, which the decoder refuses)
@@ -278,7 +280,13 @@ func mutC08() []mutant {
 		{Name: "unprotected encoder assembles its output pair by pair", File: "headers.go", Rule: "R08.4",
 			Old: "\tif err := validateHeaderParameters(h, false); err != nil {\n\t\treturn nil, fmt.Errorf(\"unprotected header: %w\", err)\n\t}\n\tencoded, err := encMode.Marshal(map[any]any(h))", New: "\tif err := validateHeaderParameters(h, false); err != nil {\n\t\treturn nil, fmt.Errorf(\"unprotected header: %w\", err)\n\t}\n\tif len(h) > 40 {\n\t\tout := []byte{0xb8, byte(len(h))}\n\t\tfor k, v := range h {\n\t\t\tkb, _ := encMode.Marshal(k)\n\t\t\tvb, _ := encMode.Marshal(v)\n\t\t\tout = append(append(out, kb...), vb...)\n\t\t}\n\t\treturn out, nil\n\t}\n\tencoded, err := encMode.Marshal(map[any]any(h))"},
 		{Name: "D6 re-created: the unprotected encoder emits tagged values unchecked", File: "headers.go", Quick: true, Rule: "R08.6", Key: "tag-free",
-			Old: "\tif err := decModeWithTagsForbidden.Wellformed(encoded); err != nil {\n\t\treturn nil, fmt.Errorf(\"unprotected header: %w\", err)\n\t}\n\treturn encoded, nil", New: "\treturn encoded, nil"},
+			Old: "\tvar decoded map[any]any\n\tif err := decModeWithTagsForbidden.Unmarshal(encoded, &decoded); err != nil {\n\t\treturn nil, fmt.Errorf(\"unprotected header: %w\", err)\n\t}\n\treturn encoded, nil", New: "\treturn encoded, nil"},
+		{Name: "D7 re-created: the unprotected encoder checks well-formedness only", File: "headers.go", Quick: true, Rule: "R08.7", Key: "decodable",
+			Old: "\tvar decoded map[any]any\n\tif err := decModeWithTagsForbidden.Unmarshal(encoded, &decoded); err != nil {", New: "\tif err := decModeWithTagsForbidden.Wellformed(encoded); err != nil {"},
+		{Name: "D7 re-created: the protected encoder emits its map without the trial decode", File: "headers.go", Quick: true, Rule: "R08.7", Key: "decodable",
+			Old: "\t\tvar decoded map[any]any\n\t\tif err := decMode.Unmarshal(encoded, &decoded); err != nil {\n\t\t\treturn nil, fmt.Errorf(\"protected header: %w\", err)\n\t\t}\n", New: ""},
+		{Name: "trial decode into a raw message (no value-level decode)", File: "headers.go", Rule: "R08.7", Key: "decodable",
+			Old: "\t\tvar decoded map[any]any\n\t\tif err := decMode.Unmarshal(encoded, &decoded); err != nil {", New: "\t\tvar decoded cbor.RawMessage\n\t\tif err := decMode.Unmarshal(encoded, &decoded); err != nil {"},
 		{Name: "protected encoder drops the validator", File: "headers.go", Rule: "R08.5",
 			Old: "\t\terr := validateHeaderParameters(h, true)\n\t\tif err != nil {\n\t\t\treturn nil, fmt.Errorf(\"protected header: %w\", err)\n\t\t}\n\t\tencoded, err = encMode.Marshal(map[any]any(h))", New: "\t\tvar err error\n\t\tencoded, err = encMode.Marshal(map[any]any(h))"},
 		{Name: "empty unprotected header emitted as an indefinite-length map", File: "headers.go", Rule: "R08.2",
